@@ -149,6 +149,22 @@ pub fn run(ctx: &Ctx, out: &mut CaseOut) {
                 Err(_) => false,
             })
         };
+        // hook H5 evidence after solving goals[0..=k] in order on one concrete SLG solver for program `lp`
+        let seq_subsumed = |lp: &Loaded, k: usize| -> bool {
+            with_program(lp, || {
+                let mut s = chalk_engine::solve::SLGSolver::<I>::new(10, None);
+                for g in goals.iter().take(k + 1) {
+                    if let Ok(goal) = lower_goal_text(lp, g) {
+                        use chalk_solve::ext::GoalExt;
+                        let db = FaultDb::new(&*lp.program, "slg");
+                        db.budget.set(300_000);
+                        let _ = solve(&mut s, &db, &goal.into_peeled_goal(chalk_integration::interner::ChalkIr));
+                    }
+                }
+                crate::common::slg_subsumed_answers(&mut s)
+            })
+        };
+        let gi_of = |g: &str| goals.iter().position(|x| x == g).unwrap_or(0);
         let mut s2 = choice.into_solver();
         with_program(&l2, || {
             for (g, a) in goals.iter().zip(&answers) {
@@ -198,6 +214,10 @@ pub fn run(ctx: &Ctx, out: &mut CaseOut) {
                             } else if solver_name(&choice) == "slg" && ((a == "No possible solution" && b != "No possible solution" && orig_stale(g)) || (b == "No possible solution" && a != "No possible solution" && crate::common::fresh_slg_stale(&l2, &peeled))) {
                                 // F11: the two programs list items in different orders, and one of the two searches lost the answer
                                 Some("slg:stale-delayed-answer-table")
+                            } else if solver_name(&choice) == "slg" && crate::common::slg_order_signature(a, a.starts_with("Ambiguous") && seq_subsumed(&l, gi_of(g)), &b, b.starts_with("Ambiguous") && seq_subsumed(&l2, gi_of(g))).is_some() {
+                                // F12 (through a sub-table) / F20, with hook H5 evidence from replaying the goal sequence on a
+                                // concrete SLG solver for the side that answered Ambiguous
+                                crate::common::slg_order_signature(a, a.starts_with("Ambiguous") && seq_subsumed(&l, gi_of(g)), &b, b.starts_with("Ambiguous") && seq_subsumed(&l2, gi_of(g)))
                             } else if solver_name(&choice) == "slg" && (crate::common::nonlinear_definite(a) || crate::common::nonlinear_definite(&b)) {
                                 // F20: the logged program lists items in another order, and whether the invalidating answer
                                 // arrives before the guidance became non-linear depends on that order
